@@ -553,8 +553,20 @@ class ArgumentParser(ParserDeprecations, ActionsContainer, ArgumentLinking, argp
                     subparser = action._name_parser_map[env_val]
                     with parser_context(load_value_mode=subparser.parser_mode):
                         pcfg = subparser._load_env_vars(env=env, defaults=False)
-                    for k, v in vars(pcfg).items():
-                        cfg[subcommand + "." + k] = v
+
+                    def set_section(prefix, section, parser):
+                        for k, v in vars(section).items():
+                            k = del_clash_mark(k)
+                            nested = next(
+                                (a for a in parser._actions if isinstance(a, _ActionSubCommands) and k in a.choices), None
+                            )
+                            if nested and isinstance(v, Namespace) and isinstance(cfg.get(f"{prefix}.{k}"), Namespace):
+                                # section of a nested subcommand: what the environment's config gave inside it stays
+                                set_section(f"{prefix}.{k}", v, nested._name_parser_map[k])
+                            else:
+                                cfg[f"{prefix}.{k}"] = v
+
+                    set_section(subcommand, pcfg, subparser)
         for action in actions:
             env_var = get_env_var(self, action)
             if env_var in env and not isinstance(action, (ActionConfigFile, _ActionSubCommands)):
